@@ -1436,6 +1436,7 @@ def unit_from(lang, stmts):
             txt += ';'
         u.lines.append(txt)
         u.stmts[line] = st
+    u.tail_line = len(u.lines) + 1
     u.lines.append('  return 0;')
     u.lines.append('}')
     u.gen = g
